@@ -77,7 +77,7 @@ def run_program(prog, seed, policy, base, family="corpus", replay=None):
         return res
     # annotation lines the harness adds and the model does not know
     impl_cmp = [l for l in impl if not l.startswith(". LIMIT") and not l.startswith(". DEADLOCK")
-                and not l.startswith(". REPLAY-END")]
+                and not l.startswith(". REPLAY-END") and not l.startswith(". SOLO-")]
     d = first_divergence(impl_cmp, model)
     res["steps"] = len(open(sched).read().splitlines())
     st = {}
@@ -89,7 +89,8 @@ def run_program(prog, seed, policy, base, family="corpus", replay=None):
     res["events"] = len(impl_cmp)
     res["digest"] = hashlib.sha1("\n".join(impl_cmp).encode()).hexdigest()[:16]
     flags = [l for l in impl if l.startswith(". FAULT") or l.startswith(". PANIC") or l.startswith(". HARNESS-ERROR")
-             or l.startswith(". DEADLOCK") or l.startswith(". LIMIT") or l.startswith(". REPLAY-DIVERGED")]
+             or l.startswith(". DEADLOCK") or l.startswith(". LIMIT") or l.startswith(". REPLAY-DIVERGED")
+             or l.startswith(". SOLO-LIMIT") or l.startswith(". SOLO-BLOCKED")]
     res["flags"] = flags
     try:
         findings, metrics = tracemod.analyse(tracemod.parse_program(open(prog).read()), impl)
